@@ -4,7 +4,6 @@ CONSTANTS
   Readers = {1, 2}
   MaxWrites = 2
   MaxCkpt = 3
-  MaxReaderStarts = 2
   ReaderPoints = {"idle"}
   CanonicalPages = FALSE
   DisarmOnTruncate = TRUE
